@@ -399,3 +399,5 @@ func vTwoDirs() (string, string) {
 	d, _ := os.Getwd()
 	return d, os.TempDir()
 }
+
+func vUseRealMetaSchemas() {}
